@@ -272,6 +272,7 @@ def hybridSets (lum : Array Nat) (w h : Nat) : Res (List (Nat × Nat)) :=
 /-- `BitMatrix.Set` on a flat `w*h` array of booleans; a call outside the matrix is ignored here
     (the theorems show the binarisers never make one) -/
 def render (w h : Nat) (sets : List (Nat × Nat)) : Array Bool :=
-  sets.foldl (fun a (x, y) => if x < w then a.setIfInBounds (y * w + x) true else a) (Array.replicate (w * h) false)
+  sets.foldl (fun a (p : Nat × Nat) => if p.1 < w then a.setIfInBounds (p.2 * w + p.1) true else a)
+    (Array.replicate (w * h) false)
 
 end Gzx.Binarizer
